@@ -255,6 +255,13 @@ def install(handler, g):
             g = torch.randn(4, dtype=torch.float64)
             (gx,) = torch.autograd.grad(y, x, g)
             ok = torch.allclose(y, (s if "fwd" in job else 1.0) * x) and torch.allclose(gx, (1.0 if "fwd" in job else s) * g)
+            if "aliasing" in rj["obligation"]:
+                for s1 in (s, 1.0, 1):
+                    x1 = torch.randn(4, dtype=torch.float32)
+                    y1 = fn(x1, s1)
+                    if y1 is x1 or y1.data_ptr() == x1.data_ptr():
+                        return True, f"{fn.__name__}(x, {s1!r}) returns {'x itself' if y1 is x1 else 'a tensor sharing the storage of x'}: a later in-place operation on the result changes the caller's tensor"
+                return False, "the result never shares storage with the argument"
             if ok:
                 # "never varies between repeated calls": a low-precision call first, then float64
                 for s2 in (1 / 3, 0.7, s):
